@@ -28,15 +28,28 @@ Print Assumptions C15_map_laws.
    statements the steps stand for (which do not depend on the table), keys stay unique, and the n-th
    snapshot / result are those of the map after n+1 / n steps *)
 Theorem C15_store_refines_map : forall O H steps,
-  final O H steps [] = fold_left apply_omop (effects O H steps) [] /\
-  wf (final O H steps []) /\
-  (forall n res d, nth_error (run O H steps []) n = Some (res, d) ->
-     d = dump (final O H (firstn (S n) steps) []) /\
-     res = snd (do_step O H (nth n steps (SStore 0 OList)) (final O H (firstn n steps) []))).
+  final O H steps false [] = fold_left apply_omop (effects O H steps false) [] /\
+  wf (final O H steps false []) /\
+  (forall n res d, nth_error (run O H steps false []) n = Some (res, d) ->
+     d = dump (final O H (firstn (S n) steps) false []) /\
+     res = snd (fst (do_step_l O H (nth n steps (SStore 0 OList)) (lock_after (firstn n steps) false)
+                               (final O H (firstn n steps) false [])))).
 Proof.
   intros O H steps. split; [apply final_is_fold|]. split; [apply wf_final, wf_nil|]. intros n res d. apply run_snapshots.
 Qed.
 Print Assumptions C15_store_refines_map.
+
+(* fault "database locked by another connection": a step that would issue a mutating statement reports
+   OperationalError and leaves the table unchanged; everything decided before the statement and all reads are
+   as without the lock; without the lock do_step_l is do_step *)
+Theorem C15_locked_write_fails : forall O H st m, (forall b, st <> SLock b) ->
+  match do_step O H st m with
+  | (Some _, _) => do_step_l O H st true m = (None, RRaise EOperational, true)
+  | (None, res) => do_step_l O H st true m = (None, res, true)
+  end /\
+  do_step_l O H st false m = (fst (do_step O H st m), snd (do_step O H st m), false).
+Proof. intros O H st m Hn. split; [apply locked_step; exact Hn|apply unlocked_step; exact Hn]. Qed.
+Print Assumptions C15_locked_write_fails.
 
 (* the reading statements in terms of the map: exactly the matching entries, sorted *)
 Theorem C15_reads_spec : forall m, wf m ->
@@ -65,7 +78,7 @@ Print Assumptions C15_strict_values_roundtrip.
    json_image v = Some v, evaluated for every value of every case), not by a theorem. *)
 Theorem C15_rejected_shapes_partial :
   (forall l, check_value (PTuple l) = false /\ json_image (PTuple l) <> Some (PTuple l)) /\
-  (check_value POther = false /\ json_image POther = None) /\
+  (forall e, check_value (POther e) = false /\ json_image (POther e) = None) /\
   (forall l k v, In (k, v) l -> key_is_str k = false -> json_image (PDict l) <> Some (PDict l)).
 Proof. split; [exact rejected_tuple|split; [exact rejected_other|exact rejected_nonstr_key]]. Qed.
 Print Assumptions C15_rejected_shapes_partial.
